@@ -85,7 +85,7 @@ def run(ctx):
     finally:
         shutil.rmtree(tmp, ignore_errors=True)
     # (b) chunked computations
-    ncase = 2 if ctx.quick else 6
+    ncase = 2 if ctx.quick else 4
     for c in range(ncase):
         double = bool(c % 2)
         p = calib.random_params(rng, double, quick=True, nx=int(rng.integers(10, 14)), nt=int(rng.integers(2, 4)), nta=int(rng.choice([0, 1])), noise=0.01, nmatch=0, var_mode="float",
